@@ -64,7 +64,6 @@ impl GlobalLayout {
 
 // verification hook (compiled only by Kani): `empty()` goes through a OnceLock whose slow
 // path is a futex syscall the model checker cannot execute; harnesses stub it with this twin.
-#[allow(unexpected_cfgs)]
 #[cfg(kani)]
 impl GlobalLayout {
     pub fn verif_empty() -> Arc<Self> {
